@@ -36,6 +36,7 @@ var c18ArgLists = []c18Args{
 type c18Spec struct {
 	Fmt  string `json:"fmt"`
 	Args int    `json:"args"`
+	Text string `json:"program,omitempty"`
 }
 
 func c18Check(c *fw.Ctx, f string, ai int) *fw.Violation {
@@ -106,7 +107,7 @@ func init() {
 				for _, f := range []string{"", "%", "s", "f", "v", "d", "-", "0", "3", "x"} {
 					for ai := range c18ArgLists {
 						f, ai := f, ai
-						c.Do(func() any { return c18Spec{f, ai} }, func() *fw.Violation { return c18Check(c, f, ai) })
+						c.Do(func() any { return c18Spec{Fmt: f, Args: ai} }, func() *fw.Violation { return c18Check(c, f, ai) })
 					}
 				}
 				c18Sweep(c)
@@ -125,7 +126,9 @@ func init() {
 				c.State(cls)
 				for ai := range c18ArgLists {
 					ai := ai
-					c.Do(func() any { return c18Spec{f, ai} }, func() *fw.Violation {
+					c.Do(func() any {
+						return c18Spec{f, ai, `BEGIN { print "before"; printf("` + f + `"` + c18ArgLists[ai].text + `); print "|after" }`}
+					}, func() *fw.Violation {
 						v := c18Check(c, f, ai)
 						return v
 					})
@@ -254,7 +257,7 @@ func c18Sweep(c *fw.Ctx) {
 				}
 				ai := map[string]int{"s": 1, "f": 2, "v": 6}[code]
 				c.State(fmt.Sprintf("width:%s:%s:%d", z, code, sign(w)))
-				c.Do(func() any { return c18Spec{f, ai} }, func() *fw.Violation { return c18Check(c, f, ai) })
+				c.Do(func() any { return c18Spec{Fmt: f, Args: ai} }, func() *fw.Violation { return c18Check(c, f, ai) })
 			}
 		}
 	}
@@ -263,9 +266,9 @@ func c18Sweep(c *fw.Ctx) {
 		for _, tail := range []string{" tail %s", "%d", "%", "%5", "%f"} {
 			f := "head %" + strconv.Itoa(w) + "s" + tail
 			c.State("wide then failing")
-			c.Do(func() any { return c18Spec{f, 1} }, func() *fw.Violation { return c18Check(c, f, 1) })
+			c.Do(func() any { return c18Spec{Fmt: f, Args: 1} }, func() *fw.Violation { return c18Check(c, f, 1) })
 			g := "%-" + strconv.Itoa(w) + "v" + tail
-			c.Do(func() any { return c18Spec{g, 1} }, func() *fw.Violation { return c18Check(c, g, 1) })
+			c.Do(func() any { return c18Spec{Fmt: g, Args: 1} }, func() *fw.Violation { return c18Check(c, g, 1) })
 		}
 	}
 	// widths of 20 and more digits, and zero-padded width texts
@@ -276,7 +279,7 @@ func c18Sweep(c *fw.Ctx) {
 			}
 			f := "%" + wt + code + "|"
 			ai := map[string]int{"s": 1, "f": 2, "v": 6}[code]
-			c.Do(func() any { return c18Spec{f, ai} }, func() *fw.Violation { return c18Check(c, f, ai) })
+			c.Do(func() any { return c18Spec{Fmt: f, Args: ai} }, func() *fw.Violation { return c18Check(c, f, ai) })
 		}
 	}
 }
